@@ -198,7 +198,7 @@ func VerifC14_Stream() {
 		ss.sendErr = errors.New("send failed")
 	}
 	handlerErr := errors.New("handler result")
-	nops := 1 + verif.Choice("ops", 3)
+	nops := 1 + verif.Choice("ops", verif.Tiered(3, 4))
 	herr := ic("srv", ss, &golangGrpc.StreamServerInfo{FullMethod: "/svc/stream"}, func(srv interface{}, stream golangGrpc.ServerStream) error {
 		for i := 0; i < nops; i++ {
 			isSend := verif.Bool("opIsSend")
